@@ -91,10 +91,15 @@ def match_edges(ret, edges, w):
     return idx
 
 
-def h_mst(s, algo, n, edges, allow_forest=False, start=None, labels=False):
+def h_mst(s, algo, n, edges, allow_forest=False, start=None, labels=False, chain=False):
     Status = importlib.import_module("solvor.types").Status
     mod = importlib.import_module("solvor.mst")
     w = [s.real("w%d" % i) for i in range(len(edges))]
+    if chain:
+        # rank family: the weights are arbitrary but listed in non-decreasing order, so kruskal's sort has one outcome per tie pattern
+        # and the union-find sees exactly the merge sequence the topology was built for (every weight vector in that order is covered)
+        for i in range(len(edges) - 1):
+            s.assume(w[i] <= w[i + 1])
     forests, ncomp = spanning_forests(n, edges)
     connected = ncomp == 1
     name = namer(labels)
@@ -164,8 +169,33 @@ NAMED = {
 }
 
 
+def rank_family():
+    """7-node graphs whose edge list, taken in order, makes union-find merge a rank-1 pair {0,1} into a rank-2 block {2,3,4,5} through
+    either endpoint of the pair in either orientation, then offers an edge from the pair's other node (a cycle) and finally reaches
+    node 6: union by rank with unequal ranks, a non-root argument and path compression all matter (anchor: UnionFind.find/union)."""
+    out = []
+    for x in (0, 1):
+        for y in (2, 3, 4, 5):
+            for flip in (False, True):
+                for cyc in (2, 3, 4, 5):
+                    for last in range(6):
+                        for pair_first in (False, True):
+                            pair = [(0, 1)] if pair_first else []
+                            block = [(2, 3), (4, 5), (3, 5)]
+                            merge = (y, x) if flip else (x, y)
+                            other = 1 - x
+                            edges = (pair + block if pair_first else block + [(1, 0)]) + [merge, (other, cyc), (last, 6), (6, other)]
+                            out.append((7, edges))
+    return out
+
+
 def items(tier, rng):
     out = [{"name": "empty", "harness": "h_prim_empty", "params": {}}]
+    fam = rank_family()
+    for (n, edges) in (fam if tier == "thorough" else rng.sample(fam, 48)):
+        for af in (False, True):
+            out.append({"name": "kruskal_rank_%d_%d" % (n, len(edges)), "harness": "h_mst",
+                        "params": {"algo": "kruskal", "n": n, "edges": edges, "allow_forest": af, "chain": True}})
     graphs = []
     for k in range(0, 7):
         for sub in itertools.combinations(K4E, k):
